@@ -541,7 +541,10 @@ pub fn c14(ctx: &Ctx) {
 				let p = &enc[..cut];
 				rep.begin(|| format!("C14 {} prefix {}", ops.name, hex(p)));
 				let via_reader = cut % 7 == 3;
-				let r = if via_reader {
+				let via_shared = cut % 7 == 5;
+				let r = if via_shared {
+					catch(|| (d.bytes)(p.to_vec()).map(|x| x.0))
+				} else if via_reader {
 					catch(|| {
 						let mut r = IoReader(ShortReader::new(p, cut as u64, 5));
 						(d.dynamic)(&mut r)
@@ -552,11 +555,23 @@ pub fn c14(ctx: &Ctx) {
 				match r {
 					Ok(None) => {},
 					Ok(Some(v)) => rep.violation(
-						&format!("prefix-accepted:{}:{}", if via_reader { "IoReader" } else { "slice" }, ops.name),
+						&format!("prefix-accepted:{}:{}", if via_shared { "shared-buffer" } else if via_reader { "IoReader" } else { "slice" }, ops.name),
 						format!("{}: the strict prefix ({cut} of {} bytes) of the encoding of {} decoded successfully to {} ({})", ops.name, enc.len(), show_val(&case.val), show_val(&v), if via_reader { "IoReader input" } else { "slice input" }),
 						replay_json("C14", ops, p, &[("full", jstr(&hex(&enc)))]),
 					),
 					Err(pn) => rep.violation(&format!("decode-panic:{}", ops.name), format!("{}: decode of a prefix panicked: {pn}", ops.name), replay_json("C14", ops, p, &[])),
+				}
+			}
+			// the whole encoding, value by value, from a shared buffer
+			if enc.len() >= 1 {
+				rep.evaluations += 1;
+				match catch(|| (d.bytes)(enc.clone())) {
+					Ok(Some((v, used))) if same_val(ops, &case.val, &v) && used == enc.len() => rep.count("shared_buffer_whole"),
+					other => rep.violation(
+						&format!("shared-buffer-whole:{}", ops.name),
+						format!("{}: decoding the encoding of {} from a shared buffer gave {:?}", ops.name, show_val(&case.val), other.map(|o| o.map(|(v, u)| (show_val(&v), u)))),
+						replay_json("C14", ops, &enc, &[]),
+					),
 				}
 			}
 			// (3) consume-all entry points on arbitrary strings
